@@ -115,6 +115,8 @@ def c01(run):
     rt_random(run, "rand_prio", "prio", 300 if quick else 20000)
     # histories with rejected registrations: only SUCCESSFULLY registered routes may ever be dispatched to
     rt_random(run, "rand_reg", "reg", 300 if quick else 20000)
+    # "per HTTP method": routes registered for several methods at once (Any / Routes / AutoHead), each method judged on its own
+    rt_random(run, "rand_multi", "hdr", 250 if quick else 15000)
     return run.finish(rule=RT_RULE, extra_assumptions=RT_ASSUME)
 
 
@@ -146,6 +148,7 @@ def c02(run):
 def c07(run):
     quick = run.tier == "quick"
     run.build_harness()
+    rt_random(run, "rand_multi", "hdr", 250 if quick else 15000)
     rt_family(run, "prio_2x2", "prio", 2, 2)
     rt_random(run, "rand_hostile", "hostile", 500 if quick else 50000)
     return run.finish(rule=RT_RULE + " C07: hostile byte paths / unknown methods, each request issued twice; every Serve event must show "
